@@ -84,7 +84,28 @@ Theorem c14_template_structure : forall p pre tp, lex_before (length pre) 34 pre
 Proof. exact template_structure. Qed.
 Print Assumptions c14_template_structure.
 
-(* the visitor side of it: type, key and operator of an explicit condition do not depend on the literal's value *)
+(* before the lexer: ParseQuery's preprocessing (TrimSpace, phone-number rewrite) only trims a text that contains a
+   double quote — every template instance with an escaped value *)
+Theorem c14_preprocess_quoted : forall e s, In 34 s -> preprocess e s = trim s.
+Proof. exact preprocess_quoted. Qed.
+Print Assumptions c14_preprocess_quoted.
+
+(* after the parser, IMPLICIT position: one escaped literal becomes exactly one condition, never a combination or an
+   error — but the VALUE chooses property and operator there (name ~ / name =, tel ~ for phone-like digits, a URN
+   condition for scheme:path, id = n for a number under URN redaction), by design of implicit conditions: "same
+   properties and operators" in c14_template_structure is a statement about the parse tree *)
+Theorem c14_implicit_one_condition : forall e v, exists pt key o v', visit_implicit e v = Cond pt key o v'.
+Proof. exact visit_implicit_one_condition. Qed.
+Print Assumptions c14_implicit_one_condition.
+
+Example c14_implicit_value_chooses_condition :
+  visit_implicit (env_example true ascii_lower) [53] = Cond PAttr AttributeID OpEqual [53]
+  /\ visit_implicit (env_example false ascii_lower) [53] = Cond PAttr AttributeName OpEqual [53]
+  /\ visit_implicit (env_example false ascii_lower) [49; 50; 51; 52; 53] = Cond PURN k_tel OpContains [49; 50; 51; 52; 53].
+Proof. exact implicit_value_chooses_condition. Qed.
+Print Assumptions c14_implicit_value_chooses_condition.
+
+(* the visitor side of it: type, key and operator of an EXPLICIT condition do not depend on the literal's value *)
 Theorem c14_condition_shape : forall e pr c, exists pt key o, forall v, fst (visit_condition e pr c v) = Cond pt key o v.
 Proof. exact visit_condition_shape. Qed.
 Print Assumptions c14_condition_shape.
@@ -188,32 +209,40 @@ Print Assumptions c14_print_parse_example.
 
 (* Sentence 1.  FULL STATEMENT (false, see c14_parse_print_parse_refuted): for every text s that ParseQuery accepts,
    parse_query e (stringify p (parse result)) gives the same query, for every environment.
-   PARTIAL: it holds for every environment whose tables satisfy [env_ok]:
-     lowerK / lowerL   lower-casing maps the grammar's key characters / letters to key characters / letters,
-     lower_idem        and is idempotent on key characters,
-     lower_ascii       and is the ASCII map on ASCII;
-     schemes_ok        every valid URN scheme is a non-empty run of key characters fixed by lower-casing;
-     urn_ok, phone_ok  the URN and phone-number parsers return valid code points;
-   and for every valid-UTF-8 text.  What is missing is lowerK for Go's unicode.ToLower against the grammar's (old)
-   Unicode tables: it fails e.g. for U+13A0 — exactly the refutation below and the listed known finding.  Everything
-   else about accepted queries is proved: token texts belong to their rules' languages (soundness of the derivative
-   matcher), so property texts have the shape (letters+ .)? keychars+ and comparators are among 19 texts; the parser
-   only assembles tokens; the visitor's five condition forms and four implicit forms each yield a condition that can
-   be written again; Unquote returns valid code points; Simplify keeps valid trees valid. *)
+   PARTIAL: it holds for every valid-UTF-8 text s ALL OF WHOSE CHARACTERS satisfy [lowok e] — lower-casing keeps the
+   character in the grammar's key / letter class and is idempotent on it — in every environment whose tables satisfy
+   [env_ok]: lower_ascii (ToLower is the ASCII map on ASCII), schemes_ok (every valid URN scheme is a non-empty run of
+   key characters fixed by lower-casing), urn_ok / phone_ok (the URN parser returns valid code points, the phone
+   parser ASCII).  The per-character hypothesis is the negation of the known finding and nothing more: for Go's
+   unicode.ToLower it fails exactly for the 80 key characters of the BMP whose lower-case forms the grammar's tables
+   lack (U+13A0 ...; c14_lowok_fails_on_known_character), so for the real tables the theorem covers every text that
+   contains none of them — ASCII texts unconditionally (lowok_ascii follows from lower_ascii).  Everything else about
+   accepted queries is proved: token texts belong to their rules' languages (soundness of the derivative matcher),
+   so property texts have the shape (letters+ .)? keychars+ and comparators are among 19 texts; the parser only
+   assembles tokens; the visitor's five condition forms and four implicit forms each yield a condition that can be
+   written again; Unquote returns valid code points; Simplify keeps valid trees valid. *)
 Theorem c14_accepted_is_valid : forall e, env_ok e -> forall s q,
-  valid_codepoints s -> parse_query e s = QOk (Some q) -> valid_tree e q.
+  valid_codepoints s -> Forall (lowok e) s -> parse_query e s = QOk (Some q) -> valid_tree e q.
 Proof. exact accepted_valid. Qed.
 Print Assumptions c14_accepted_is_valid.
 
 Theorem c14_parse_print_parse_partial : forall p e s q, p 10 = false -> env_ok e -> valid_codepoints s ->
+  Forall (lowok e) s ->
   parse_query e s = QOk (Some q) -> parse_query e (stringify p (Some q)) = QOk (Some q).
 Proof. exact parse_print_parse_env. Qed.
 Print Assumptions c14_parse_print_parse_partial.
 
-(* env_ok is satisfiable (ASCII lower-casing, one scheme), under both redaction policies *)
-Example c14_env_ok_example : forall redact, env_ok (env_example redact ascii_lower).
+(* the hypotheses are satisfiable (ASCII lower-casing, one scheme; every character is lowok there), under both
+   redaction policies *)
+Example c14_env_ok_example : forall redact, env_ok (env_example redact ascii_lower)
+  /\ forall c, lowok (env_example redact ascii_lower) c.
 Proof. exact env_example_ok. Qed.
 Print Assumptions c14_env_ok_example.
+
+(* ... and the character of the known finding is where lowok fails *)
+Example c14_lowok_fails_on_known_character : ~ lowok (env_example false cherokee_lower) 5024.
+Proof. exact lowok_fails_on_cherokee. Qed.
+Print Assumptions c14_lowok_fails_on_known_character.
 
 (* `fields.X = 1` with X = U+13A0 is accepted; the key is lower-cased to U+AB70 as Go does; the formatted query
    `fields.<U+AB70> = 1` is a syntax error (listed in KNOWN_FINDINGS.txt,
